@@ -921,6 +921,15 @@ def r10_early_passes_do_not_underflow(ctx):
             if sub_is_guarded(b, defs, bb):
                 continue
             fn = b.nid.replace(PX + 'analyses::', '').replace(PX, '')
+            if fn not in REVIEWED_EARLY_SUBTRACTIONS:
+                # a private helper that a reviewed function was split into carries that function's review
+                from .compiler_common import family_items
+                for r in REVIEWED_EARLY_SUBTRACTIONS:
+                    full = [x.nroot for x in ctx.fb.bodies('pavexc') if not x.is_promoted and x.nid == x.nroot and
+                            x.nid.replace(PX + 'analyses::', '').replace(PX, '') == r][:1]
+                    if full and b.nroot in family_items(ctx, 'pavexc', full):
+                        fn = r
+                        break
             found[fn] = found.get(fn, 0) + 1
             where.setdefault(fn, b.loc(bb))
     for fn, cnt in sorted(found.items()):
